@@ -134,9 +134,18 @@ def import_rules(ctx: Ctx, pid: str, mapping: dict[str, str], key_filter=None, k
         mod = importlib.import_module(f"sa.rules.{pid.lower()}")
         sub = Ctx(pid, ctx.tier, ctx.prog, ctx.repo)
         sub.imported_run = True  # type: ignore[attr-defined]
-        mod.rules(sub)
-        _import_cache[key] = (sub.obligations, set(sub.analysed_functions))
-    obs, touched = _import_cache[key]
+        failure = None
+        try:
+            mod.rules(sub)
+        except AnalysisError as e:  # keep what was judged before the anchor was lost; the importing check reports the error after its own rules
+            failure = f"shared clauses of {pid}: {e}"
+        _import_cache[key] = (sub.obligations, set(sub.analysed_functions), failure)
+    obs, touched, failure = _import_cache[key]
+    if failure:
+        if not hasattr(ctx, "deferred_errors"):
+            ctx.deferred_errors = []  # type: ignore[attr-defined]
+        if failure not in ctx.deferred_errors:
+            ctx.deferred_errors.append(failure)
     for o in obs:
         if o.rule in mapping and (key_filter is None or key_filter(o)):
             ctx.obligations.append(replace(o, rule=mapping[o.rule], key=key_map(o) if key_map else o.key))
